@@ -40,7 +40,8 @@ def main():
     head = sys.argv[1]
     matrix = json.load(open(sys.argv[2])) if len(sys.argv) > 2 else None
     skipped = []
-    root = "/tmp/seed"
+    root = os.environ.get("SEED_ROOT", "/tmp/seed")
+    tagp = os.environ.get("SEED_TAG", "")          # e.g. "r2" -> ids C01-r2m1
     if os.path.isdir(root):
         for prop in sorted(os.listdir(root)):
             out = os.path.join(root, prop, "out")
@@ -52,7 +53,7 @@ def main():
                 if not os.path.isfile(cj):
                     continue
                 c = json.load(open(cj))
-                sid = "%s-%s" % (prop, m)
+                sid = "%s-%s%s" % (prop, tagp, m)
                 if not c.get("confirmed"):
                     skipped.append((sid, {k: v for k, v in c.items() if k != "seed"}))
                     continue
